@@ -89,11 +89,11 @@ theorem decLen_encLen (n : Nat) (h : n < 2 ^ 64) (rest : Bytes) : decLen (encLen
         simp
         exact readUInt_leN 8 n (by simpa using h) rest
 
-theorem decStr_encStr (s : Bytes) (h : s.length < 2 ^ 64) (rest : Bytes) :
+theorem decStr_encStr (s : Bytes) (h : s.length < 2 ^ 63) (rest : Bytes) :
     decStr (encStr s ++ rest) = some (s, rest) ∧ decStrStrict (encStr s ++ rest) = some (s, rest) := by
   unfold decStr decStrStrict encStr
-  rw [List.append_assoc, decLen_encLen _ h]
-  simp
+  rw [List.append_assoc, decLen_encLen _ (by omega)]
+  simp [h]
 
 /-- `read_str_null` stops at the first NUL: a NUL-free string followed by NUL is read back -/
 theorem readNul_roundtrip (s rest : Bytes) (h : ∀ b ∈ s, b ≠ 0) : readNul (s ++ 0 :: rest) = (s, rest) := by
